@@ -84,13 +84,13 @@ RT_FULL = {
     "int": [0, 1, -2, None],
     "float": [0.5, 1e-3, NAN, None],
     "bool": [True, False, None],
-    "str": ["a", "b c", "x,y", "x\ty", 'q"t', "'s", "", "max", "01", 'x,"y', None],
+    "str": ["a", "b c", "x,y", "x\ty", ",y", "\ty", 'q"t', "'s", "", "max", "01", 'x,"y', None],  # incl. a delimiter as the first character
 }
 RT_REDUCED = {
     "int": [1, None],
     "float": [0.5, NAN],
     "bool": [True],
-    "str": ["a", "x,y", "x\ty", 'q"t', "", "max", 'x,"y'],
+    "str": ["a", "x,y", "x\ty", ",y", 'q"t', "", "max", 'x,"y'],
 }
 RT_TINY = {"int": [1], "float": [0.5], "str": ["a", "x,y", "", None]}
 HEADERS = {1: ["k"], 2: ["k", "p"], 3: ["k", "p", "q"]}
@@ -626,6 +626,14 @@ def check_pair(acc, fam, rows1, rows2):
     wh, wr = m_inner_join(h1, rows1, h2, rows2, ["p"], ["p"])
     ctx.table("inner_join", "explicit key column" + zero, "p",
               lambda: t1.inner_join(t2, columns_self=["p"], columns_other=["p"]), wh, wr)
+    # key columns with different names in the two tables; the other table has an ordinary column named like self's key
+    h3 = ["j", "k"]
+    t3 = mk(h3, rows2, title="right")
+    wh, wr = m_inner_join(h1, rows1, h3, rows2, ["k"], ["j"])
+    ctx.table("inner_join", "key columns named differently" + dup + zero, ["k", "j"],
+              lambda: t1.inner_join(t3, columns_self="k", columns_other="j"), wh, wr)
+    ctx.table("joined", "key columns named differently" + dup + zero, ["k", "j"],
+              lambda: t1.joined(t3, columns_self="k", columns_other="j"), wh, wr)
     wh, wr = m_cross_join(h1, rows1, h2, rows2)
     ctx.table("cross_join", "two tables" + zero, None, lambda: t1.cross_join(t2), wh, wr)
     ctx.table("cross_join", "two tables" + zero, "via joined(inner_join=False)", lambda: t1.joined(t2, inner_join=False), wh, wr)
